@@ -94,7 +94,14 @@ func doBuiltinCall(t *IntraAnalysisState, callValue ssa.Value, callCommon *ssa.C
 			// taking the capacity does not propagate taint
 			return true
 
-		case "complex", "min", "max":
+		case "min", "max":
+			// min and max are variadic: the result may be any of the operands
+			for _, arg := range callCommon.Args {
+				simpleTransfer(t, instruction, arg, callValue)
+			}
+			return true
+
+		case "complex":
 			if len(callCommon.Args) == 2 {
 				f1 := callCommon.Args[1]
 				f2 := callCommon.Args[0]
